@@ -91,6 +91,7 @@ def padSeq (ws : List (PadStep α)) (a : NDArr α) : NDArr α :=
     then `_pad_basic`.  `widths`: the `boundary_width` mapping in its order. -/
 def padGrid (g : GridM α) (a : NDArr α) (widths : List (String × Nat × Nat))
     (boundary : KW String) (fill : KW α) : Res (NDArr α) := do
+  if ¬ boundaryWordsOk g boundary then throw Err.value else
   if widths.all (fun w => w.2.1 == 0 && w.2.2 == 0) then pure a else
   let steps ← widths.mapM (fun (w : String × Nat × Nat) => do
     let ax ← match g.axis? w.1 with | some x => pure x | none => throw Err.key
